@@ -26,11 +26,13 @@ package internal
 
 //@ func BinFor
 //@   mode bv
+//@   anymode
 //@   props C16, C04
-//@   requires validIv(beg, end)
+//@   requires validIv(beg, end) || (beg == 0 - 1 && end == 0)
 //@   ensures[C16,C04] @inrange result <= maxBin()
-//@   ensures[C16,C04] @contains binContains(result, beg, end)
-//@   ensures[C16,C04] @deepest forall k uint32 :: k <= maxBin() && binContains(k, beg, end) ==> binLevel(k) <= binLevel(result)
+//@   ensures[C16,C04] @contains validIv(beg, end) ==> binContains(result, beg, end)
+//@   ensures[C16,C04] @deepest validIv(beg, end) ==> forall k uint32 :: k <= maxBin() && binContains(k, beg, end) ==> binLevel(k) <= binLevel(result)
+//@   ensures[C16,C04] @unplaced (beg == 0 - 1 && end == 0) ==> result == 4680
 
 // OverlappingBinsFor: the returned list is exactly the set of bins whose span
 // meets [beg,end). The ghost set S mirrors the elements of list (idx gives a
